@@ -18,6 +18,7 @@ def env_parse_i32(ex, m, args, tys, st, fn, symargs):
 
 
 PROP = {
+    "level_text": 'Only the \\ifodd condition is decided (every i32, scanner stubbed). Branch skipping, \\ifcase/\\or/\\else/\\fi, \\ifnum, nesting and \\expandafter/\\noexpand are VM-bound and NOT decided.',
     "title": "Conditionals deliver only the selected branch; \\expandafter acts on one token",
     "explanation": "Engine B decides the condition of \\ifodd for every 32-bit operand from the MIR of IfOdd::evaluate, with the integer scanner replaced by a stub that returns an arbitrary i32.",
     "outside": [
